@@ -38,7 +38,7 @@ class C10(Check):
             'text, whitespace-only text, comments, processing instructions, with / without XML declaration) answered to get / get_config / rpc '
             'through the REAL request path for profiles default, junos (XSLT), alu (remove_namespaces), sros (pass-through): reply.xml vs the '
             'text the server sent, data_ele / data_xml vs the <data> child, and for transforming profiles the returned tree vs the model and vs '
-            'the shape of the server\'s reply parsed with xml.etree; huge text node / deep tree with huge_tree on. '
+            'the shape of the server\'s reply parsed with xml.etree, also after the caller has printed / queried the reply object; huge text node / deep tree with huge_tree on. '
             'Non-trivial = a reply whose <data> has at least one element; distinct by case.')
     TRUST = ['libxml2 / libxslt parsing, XSLT engine and huge-tree limits (environment; exercised for real, not modelled)']
     ASSUMPTIONS = ['two attributes of one element with the same local name in different namespaces collapse under namespace stripping (not generated)']
@@ -49,7 +49,9 @@ class C10(Check):
         for i in range(n):
             prof = ['default', 'junos', 'alu', 'sros'][i % 4]
             out.append({'kind': 'reply', 'profile': prof, 'tree': gen_reply_tree(rng, pis=(rng.random() < 0.3)), 'decl': rng.random() < 0.4,
-                        'op': rng.choice(['get', 'get_config', 'rpc'])})
+                        'op': rng.choice(['get', 'get_config', 'rpc']),
+                        # what the caller does with the reply object BEFORE reading its content (logging it, querying it): none of it may change it
+                        'touch': [[], ['str'], ['tostring', 'xpath'], ['find', 'str', 'data_xml']][(i // 4) % 4]})
         # huge-tree support switched on for the manager: every profile, also those that post-process the reply (their transforms
         # must not fall back to a parser with the default limits)
         for prof in ('default', 'junos', 'alu', 'sros'):
@@ -221,6 +223,20 @@ class C10(Check):
         res = {'mid': sent['mid']}
         # independent reading of what the server sent
         res['sent_shape'] = X.shape(X.from_lxml(X.et_parse_full(sent['raw'])))
+        for t in case.get('touch', []):
+            try:
+                if t == 'str':
+                    str(r)
+                elif t == 'tostring':
+                    getattr(r, 'tostring', None)
+                elif t == 'xpath':
+                    r.xpath('//*') if hasattr(r, 'xpath') else None
+                elif t == 'find':
+                    (r.find('.//nothing') if hasattr(r, 'find') else None), (r.findtext('.//nothing') if hasattr(r, 'findtext') else None), (r.findall('.//nothing') if hasattr(r, 'findall') else None)
+                elif t == 'data_xml':
+                    getattr(r, 'data_xml', None)
+            except Exception as e:
+                return {'exc': type(e).__name__, 'msg': 'while observing the reply (%s): %s' % (t, str(e)[:100])}
         if type(r).__name__ == 'NCElement':
             doc = nx.to_ele(r.data_xml)
             res['returned'] = X.canon(X.from_lxml(doc))
